@@ -18,4 +18,15 @@ CLAIMS = {
         note='Decides the precomputed tables completely (finite data); for the generated tables decides only the structural clauses, not '
              'that the generator loops compute the right entries. ' + BASE + 'Reference field arithmetic: 30 lines in rules_tables.py.',
         technique='constant-data comparison over IR initialisers + who-may-write / init-before-use dominance rules'),
+    'C19': dict(
+        text='Seeding guard interval is exactly [1, 2^31-2]; abstract interpretation of the loop-free state update (linear forms over '
+             'split atoms with the identity x = 2^k*(x>>k) + (x & (2^k-1)), coefficients reduced mod the discovered modulus, plus '
+             'unsigned intervals) proves for every state that the next state is 16807*s mod (2^31-1), canonical and overflow-free; the '
+             'returned value is RFC 5170\'s reference scaling expression (expression-tree rule); effect rules for both routines.',
+        design_ref='DESIGN.md section 5 (R-SEEDRANGE, R-PRNG-STEP, R-FPSCALE, R-PRNG-EFFECT) and section 6 C19',
+        note='Decides seeding range, the recurrence for all 2^31-2 states (congruence proof), the 10,000th-state check value (from the '
+             'proven recurrence and extracted constants) and the shape of the scaling expression; does not decide the floating-point '
+             'rounding claims. A failed proof is turned into a VIOLATION only with a concrete counterexample state on the extracted '
+             'expression, otherwise ANALYSIS-BROKEN. ' + BASE,
+        technique='guard-interval analysis + abstract interpretation (congruence/linear-form x interval domain) + expression-tree rule'),
 }
